@@ -422,11 +422,17 @@ def r7_inventory(run, F):
     reviewed = inventory.load_reviewed("c15_panics.json")
     run.note_analysed("R7 functions in closure", len(R))
     run.note_analysed("R7 panic sites", sum(len(v) for v in sites.values()))
+    moved = inventory.moved_sites(sites, reviewed, g)
     for key, lines in sorted(sites.items()):
         rv = reviewed.get(key)
         fn = key.split("|")[0]
         b = F.lib.bodies[fn]
-        if rv is None:
+        if key in moved and (rv is None or not rv["reason"].startswith("FINDING")):
+            n_, origin = moved[key]
+            run.ob("R7-PANIC-SITE", key, len(lines) <= (rv["count"] if rv is not None else 0) + n_, "%s:%s" % (F.rel(b["file"]), lines),
+                   "%d sites; %d of them moved here from %s (same kind and message, caller or callee), reviewed there as: %s" % (
+                       len(lines), n_, origin.split("|")[0], reviewed[origin]["reason"][:120]))
+        elif rv is None:
             run.ob("R7-PANIC-SITE", key, False, "%s:%s" % (F.rel(b["file"]), lines),
                    "unreviewed panicking site reachable from the delta entry points")
         elif rv["reason"].startswith("FINDING"):
